@@ -8,6 +8,8 @@ Notation of a production body (space separated):
             (expectation: first on its line, one unit deeper than the line of the enclosing block's opener)
    @R       start of a registered construct (its first token gets a key, no expectation of its own)
    @A       like @R, for the `begin` of an anonymous routine (which the formatter may keep on its parent's line)
+   @T       like @R, for an item of a declaration part (routine header, section keyword, body `begin`): expectation when
+            it stands at file level: first on its line, not indented
    @.       end of the construct started by the matching @S / @D / @R
    @{ @}    open / close a block whose opener is the construct that is current at '@{'
    @C       the next token is a block closer (expectation: first on its line, at the opener's indentation)
@@ -30,9 +32,14 @@ def split(a):
     return toks
 
 
-def rule(nt, alts, mins=None):
+IDENT_RULES = set()
+
+
+def rule(nt, alts, mins=None, ident=False):
     G[nt] = [split(a) for a in alts]
     MIN[nt] = [split(a) for a in (mins if mins is not None else alts[:1])]
+    if ident:
+        IDENT_RULES.add(nt)
 
 
 # ------------------------------------------------------------------ start symbols
@@ -56,19 +63,20 @@ rule("DeclSections", ["", "DeclSection DeclSections"])
 
 # ------------------------------------------------------------------ declaration sections
 rule("DeclSection", ["ConstSection", "VarSection", "TypeSection", "ResSection"], ["VarSection"])
-rule("ConstSection", ["@R 'const' @{ ConstDecl ConstDecls @} @."])
+rule("ConstSection", ["@T 'const' @{ ConstDecl ConstDecls @} @."])
 rule("ConstDecls", ["", "ConstDecl ConstDecls"])
 rule("ConstDecl", ["@D Ident '=' ConstExpr ';' @.", "@D Ident ':' Type '=' ConstExpr ';' @.",
                    "@D Ident ':' 'array' '[' Number '..' Number ']' 'of' TypeName '=' '(' ExprList ')' ';' @.",
                    "@D Ident '=' ConstExpr 'deprecated' ';' @."])
-rule("ResSection", ["@R 'resourcestring' @{ ResDecl ResDecls @} @."])
+rule("ResSection", ["@T 'resourcestring' @{ ResDecl ResDecls @} @."])
 rule("ResDecls", ["", "ResDecl ResDecls"])
 rule("ResDecl", ["@D Ident '=' String ';' @."])
-rule("VarSection", ["@R 'var' @{ VarDecl VarDecls @} @.", "@R 'threadvar' @{ VarDecl VarDecls @} @."], ["@R 'var' @{ VarDecl @} @."])
+rule("VarSection", ["@T 'var' @{ VarDecl VarDecls @} @.", "@T 'threadvar' @{ VarDecl VarDecls @} @."], ["@T 'var' @{ VarDecl @} @."])
+rule("AnonVarSection", ["@R 'var' @{ VarDecl VarDecls @} @."])
 rule("VarDecls", ["", "VarDecl VarDecls"])
 rule("VarDecl", ["@D IdentList ':' Type ';' @.", "@D Ident ':' Type '=' ConstExpr ';' @.", "@D Ident ':' Type 'absolute' Ident ';' @."])
 rule("IdentList", ["Ident", "Ident ',' IdentList"])
-rule("TypeSection", ["@R 'type' @{ TypeDecl TypeDecls @} @."])
+rule("TypeSection", ["@T 'type' @{ TypeDecl TypeDecls @} @."])
 rule("TypeDecls", ["", "TypeDecl TypeDecls"])
 rule("TypeDecl", ["@D TypeIdent '=' SimpleTypeDef ';' @.", "@D TypeIdent '=' StructType ';' @.", "@D TypeIdent '=' StructType ';' @.",
                   "@D TypeIdent '<' TypeParams '>' '=' StructType ';' @.", "@D TypeIdent '=' 'class' ';' @."],
@@ -99,7 +107,9 @@ rule("Visibility", ["'private'", "'protected'", "'public'", "'published'", "'str
 rule("Members", ["", "Member Members", "Member Members", "ClassVarSection"], [""])
 # `class var` opens a section of its own: the fields that follow belong to it (so it ends a member list)
 rule("ClassVarSection", ["@R 'class' 'var' @{ Field Fields @} @.", "@R 'class' 'var' @{ Field @} @."])
-rule("Member", ["Field", "Method", "Method", "Property", "ClassMember"], ["Field"])
+rule("Member", ["Field", "Method", "Method", "Property", "ClassMember", "NestedSection"], ["Field"])
+# a nested const / type section inside a class or record; it ends at the next method, property or visibility section
+rule("NestedSection", ["@R 'const' @{ ConstDecl ConstDecls @} @. Method", "@R 'type' @{ TypeDecl @} @. Method"])
 rule("Fields", ["Field", "Field Fields"])
 rule("Field", ["@D IdentList ':' Type ';' @."])
 rule("ClassMember", ["@D 'class' MethodHead ';' @.", "@D 'class' MethodHead ';' 'static' ';' @."])
@@ -118,13 +128,14 @@ rule("Param", ["IdentList ':' Type", "'const' IdentList ':' Type", "'var' Ident 
                "Ident ':' Type '=' ConstExpr", "'const' Ident ':' 'array' 'of' 'const'", "'var' Ident"], ["Ident ':' Type"])
 
 # ------------------------------------------------------------------ routines
-rule("RoutineDecl", ["@R RoutineHead ';' @.", "@R RoutineHead ';' 'overload' ';' @.", "@R RoutineHead ';' 'external' String 'name' String ';' @."],
-     ["@R RoutineHead ';' @."])
+rule("RoutineDecl", ["@T RoutineHead ';' @.", "@T RoutineHead ';' 'overload' ';' @.", "@T RoutineHead ';' 'external' String 'name' String ';' @."],
+     ["@T RoutineHead ';' @."])
 rule("RoutineHead", ["'procedure' RoutineName OptParams", "'function' RoutineName OptParams ':' Type",
                      "'constructor' Ident '.' Ident OptParams", "'destructor' Ident '.' Ident",
                      "'class' 'function' Ident '.' Ident OptParams ':' Type"], ["'procedure' Ident"])
 rule("RoutineName", ["Ident", "Ident '.' Ident", "TypeIdent '<' TypeIdent '>' '.' Ident"], ["Ident"])
-rule("RoutineImpl", ["@R RoutineHead ';' @. LocalDecls @R 'begin' @{ StmtList @C 'end' @} @. ';'"])
+# the local declarations (sections, nested routines) form a block of the header: nested routines are indented under it
+rule("RoutineImpl", ["@T RoutineHead ';' @{ LocalDecls @} @. @T 'begin' @{ StmtList @C 'end' @} @. ';'"])
 rule("LocalDecls", ["", "", "VarSection LocalDecls", "ConstSection LocalDecls", "TypeSection LocalDecls", "RoutineImpl LocalDecls"])
 
 # ------------------------------------------------------------------ statements
@@ -190,14 +201,14 @@ rule("GenericCall", ["TypeIdent '<' TypeArgs '>' '.' 'Create'", "TypeIdent '<' T
 rule("ExprList", ["Expr", "Expr ',' ExprList", "Expr ',' Expr"], ["Factor0"])
 rule("SetCtor", ["'[' ']'", "'[' ExprList ']'", "'[' Number '..' Number ']'", "'[' Ident ',' Ident '..' Ident ']'"], ["'[' ']'"])
 rule("AnonRoutine", ["'procedure' OptParams @A 'begin' @{ StmtList @C 'end' @} @.", "'function' OptParams ':' Type @A 'begin' @{ StmtList @C 'end' @} @.",
-                     "'procedure' OptParams VarSection @A 'begin' @{ StmtList @C 'end' @} @."],
+                     "'procedure' OptParams AnonVarSection @A 'begin' @{ StmtList @C 'end' @} @."],
      ["'procedure' @A 'begin' @{ StmtList @C 'end' @} @."])
 
 # ------------------------------------------------------------------ lexical pools
 rule("Ident", ["'A'", "'B'", "'I'", "'Foo'", "'Bar'", "'Baz'", "'Value'", "'Index'", "'Count'", "'Items'", "'FList'", "'AVeryLongIdentifierName'",
-               "'AnotherQuiteLongName'", "'Größe'", "'X1'", "'_Tmp'", "'&begin'"], ["'A'", "'Foo'"])
-rule("TypeIdent", ["'TFoo'", "'TBar'", "'TList'", "'TDictionary'", "'IFoo'", "'TMyVeryLongClassName'"], ["'TFoo'"])
-rule("TypeName", ["'Integer'", "'Boolean'", "'TFoo'", "'TObject'", "'Byte'", "'Double'", "'PChar'", "'System' '.' 'TObject'"], ["'Integer'"])
+               "'AnotherQuiteLongName'", "'Größe'", "'X1'", "'_Tmp'", "'&begin'", "'Name'", "'Message'", "'ReadOnly'", "'Platform'", "'Default'", "'Stored'", "'Local'"], ["'A'", "'Foo'"], ident=True)
+rule("TypeIdent", ["'TFoo'", "'TBar'", "'TList'", "'TDictionary'", "'IFoo'", "'TMyVeryLongClassName'"], ["'TFoo'"], ident=True)
+rule("TypeName", ["'Integer'", "'Boolean'", "'TFoo'", "'TObject'", "'Byte'", "'Double'", "'PChar'", "'System' '.' 'TObject'", "'Platform'", "'Deprecated'", "'Experimental'"], ["'Integer'"], ident=True)
 rule("Number", ["'0'", "'1'", "'42'", "'100000'", "'3.14'", "'1e5'", "'$FF'", "'%1010'", "'1_000'"], ["'1'"])
 rule("String", ["'''s'''", "'''hello world'''", "'#13#10'", "'''it''''s'''", "'''a''#9''b'''", "''''''",
                 "'''a fairly long string literal that takes room'''"], ["'''s'''"])
@@ -205,10 +216,10 @@ rule("String", ["'''s'''", "'''hello world'''", "'#13#10'", "'''it''''s'''", "''
 rule("MLString", ["'ML3'", "'ML5'", "'ML3b'"], ["'ML3'"])
 
 
-def sym(x):
+def sym(x, tag="t"):
     if x.startswith("'") and x.endswith("'") and len(x) >= 2:
         body = x[1:-1].replace("''", "'")
-        return '<<"t", "%s">>' % body.replace("\\", "\\\\").replace('"', '\\"')
+        return '<<"%s", "%s">>' % (tag, body.replace("\\", "\\\\").replace('"', '\\"'))
     if x.startswith("@"):
         return '<<"p", "%s">>' % x[1:]
     assert re.match(r"^[A-Za-z0-9]+$", x), x
@@ -216,28 +227,29 @@ def sym(x):
     return '<<"n", "%s">>' % x
 
 
-def body(b):
-    return "<<" + ", ".join(sym(x) for x in b) + ">>"
+def body(b, tag="t"):
+    return "<<" + ", ".join(sym(x, tag) for x in b) + ">>"
 
 
-def alts(lst):
-    return "<<" + ",\n      ".join(body(b) for b in lst) + ">>"
+def alts(lst, tag="t"):
+    return "<<" + ",\n      ".join(body(b, tag) for b in lst) + ">>"
 
 
 def main():
     out = ["------------------------------ MODULE Grammar ------------------------------",
            "(* GENERATED by bin/gen_grammar.py - the production table of the program generator (see Gen.tla).            *)",
-           "(* A symbol is <<\"t\", text>> (terminal), <<\"n\", name>> (non-terminal) or <<\"p\", op>> (structure mark operation).  *)",
+           "(* A symbol is <<\"t\", text>> (terminal), <<\"i\", text>> (a terminal that is an identifier by the grammar, however it is  *)",
+           "(* spelled), <<\"n\", name>> (non-terminal) or <<\"p\", op>> (structure mark operation).                                *)",
            "(* Prods[nt] is the sequence of alternatives of nt; MinProds[nt] the alternatives allowed once the derivation  *)",
            "(* budget is spent (they terminate).                                                                         *)",
            "EXTENDS Naturals, Sequences", ""]
     out.append("NonTerminals == {" + ", ".join('"%s"' % n for n in G) + "}")
     out.append("")
     out.append("Prods ==")
-    out.append("  " + " @@\n  ".join('("%s" :> %s)' % (n, alts(G[n])) for n in G))
+    out.append("  " + " @@\n  ".join('("%s" :> %s)' % (n, alts(G[n], "i" if n in IDENT_RULES else "t")) for n in G))
     out.append("")
     out.append("MinProds ==")
-    out.append("  " + " @@\n  ".join('("%s" :> %s)' % (n, alts(MIN[n])) for n in G))
+    out.append("  " + " @@\n  ".join('("%s" :> %s)' % (n, alts(MIN[n], "i" if n in IDENT_RULES else "t")) for n in G))
     out.append("=============================================================================")
     txt = "\n".join(out) + "\n"
     txt = txt.replace("EXTENDS Naturals, Sequences", "EXTENDS Naturals, Sequences, TLC")
